@@ -24,13 +24,22 @@ class FormError(Exception):
 # jets
 
 class Jet:
-    __slots__ = ("v", "g", "h", "d")
+    """Scalar jet: value v, parametric gradient g (list of d arrays) and Hessian h (d x d), each broadcastable to (Q, I, J).
+    `mag` is a second jet of the same order holding *magnitudes*: the value the same expression takes when every leaf is
+    replaced by its absolute value and every subtraction by an addition.  It bounds the size of the terms an entry is
+    composed of and is the scale of the rounding tolerance (a difference that cancels to 0 must not be compared with
+    relative tolerance to 0)."""
+    __slots__ = ("v", "g", "h", "d", "mag")
 
-    def __init__(self, v, g=None, h=None, d=0):
+    def __init__(self, v, g=None, h=None, d=0, mag=None):
         self.v = v          # ndarray
         self.g = g          # list of d ndarrays or None
         self.h = h          # d x d nested list (symmetric) or None
         self.d = d
+        if mag is None:     # leaf: magnitudes are the absolute values
+            mag = Jet(np.abs(v), [np.abs(x) for x in g] if g is not None else None,
+                      [[np.abs(x) for x in r] for r in h] if h is not None else None, d, mag=False)
+        self.mag = mag      # False marks a magnitude jet itself
 
     @property
     def order(self):
@@ -39,7 +48,8 @@ class Jet:
     def lower(self, order):
         if order >= self.order:
             return self
-        return Jet(self.v, self.g if order >= 1 else None, None, self.d)
+        m = self.mag.lower(order) if self.mag is not False else False
+        return Jet(self.v, self.g if order >= 1 else None, None, self.d, mag=m)
 
 
 def const_jet(c, d, order=2):
@@ -52,22 +62,16 @@ def _ord(*js):
     return min(j.order for j in js)
 
 
-def j_add(a, b, sign=1.0):
+def _raw_add(a, b, sign=1.0):
     o = _ord(a, b)
     d = a.d
     v = a.v + sign * b.v
     g = [a.g[k] + sign * b.g[k] for k in range(d)] if o >= 1 else None
     h = [[a.h[i][k] + sign * b.h[i][k] for k in range(d)] for i in range(d)] if o >= 2 else None
-    return Jet(v, g, h, d)
+    return v, g, h
 
 
-def j_neg(a):
-    d = a.d
-    return Jet(-a.v, [-x for x in a.g] if a.g is not None else None,
-               [[-x for x in r] for r in a.h] if a.h is not None else None, d)
-
-
-def j_mul(a, b):
+def _raw_mul(a, b):
     o = _ord(a, b)
     d = a.d
     v = a.v * b.v
@@ -75,21 +79,48 @@ def j_mul(a, b):
     h = None
     if o >= 2:
         h = [[a.h[i][k] * b.v + a.g[i] * b.g[k] + a.g[k] * b.g[i] + a.v * b.h[i][k] for k in range(d)] for i in range(d)]
-    return Jet(v, g, h, d)
+    return v, g, h
+
+
+def j_add(a, b, sign=1.0):
+    v, g, h = _raw_add(a, b, sign)
+    mv, mg, mh = _raw_add(a.mag, b.mag, 1.0)
+    return Jet(v, g, h, a.d, mag=Jet(mv, mg, mh, a.d, mag=False))
+
+
+def j_neg(a):
+    d = a.d
+    return Jet(-a.v, [-x for x in a.g] if a.g is not None else None,
+               [[-x for x in r] for r in a.h] if a.h is not None else None, d, mag=a.mag)
+
+
+def j_mul(a, b):
+    v, g, h = _raw_mul(a, b)
+    mv, mg, mh = _raw_mul(a.mag, b.mag)
+    return Jet(v, g, h, a.d, mag=Jet(mv, mg, mh, a.d, mag=False))
 
 
 def j_fun(a, f0, f1, f2):
     """Chain rule for a scalar function with derivatives f1, f2."""
     d = a.d
     v = f0(a.v)
-    g = h = None
-    if a.order >= 1:
+    g = h = mg = mh = None
+    m = a.mag
+    with np.errstate(all="ignore"):
         d1 = f1(a.v)
-        g = [d1 * a.g[k] for k in range(d)]
-        if a.order >= 2:
+        a1 = np.abs(d1)
+        mv = np.abs(v) + a1 * m.v
+        if a.order >= 1:
             d2 = f2(a.v)
-            h = [[d2 * a.g[i] * a.g[k] + d1 * a.h[i][k] for k in range(d)] for i in range(d)]
-    return Jet(v, g, h, d)
+            a2 = np.abs(d2)
+            c1 = a1 + a2 * m.v              # magnitude of f'(a) including the error of its argument
+            g = [d1 * a.g[k] for k in range(d)]
+            mg = [c1 * m.g[k] for k in range(d)]
+            if a.order >= 2:
+                c2 = a2 * (1.0 + m.v)
+                h = [[d2 * a.g[i] * a.g[k] + d1 * a.h[i][k] for k in range(d)] for i in range(d)]
+                mh = [[c2 * m.g[i] * m.g[k] + c1 * m.h[i][k] for k in range(d)] for i in range(d)]
+    return Jet(v, g, h, d, mag=Jet(mv, mg, mh, d, mag=False))
 
 
 def j_recip(a):
@@ -106,7 +137,9 @@ def j_dx_param(a, k):
         raise FormError("internal: jet order too low")
     d = a.d
     g = [a.h[k][c] for c in range(d)] if a.order >= 2 else None
-    return Jet(a.g[k], g, None, d)
+    m = a.mag
+    mg = [m.h[k][c] for c in range(d)] if a.order >= 2 else None
+    return Jet(a.g[k], g, None, d, mag=Jet(m.g[k], mg, None, d, mag=False))
 
 
 FUNCS = {
@@ -687,21 +720,26 @@ class Interp:
         raise FormError("unknown measure")
 
     # -- assembly -------------------------------------------------------------------------------
-    def integrand(self):
-        """Sum of all terms (each already multiplied by its measure): array (Q, I, J)."""
+    def integrand(self, with_mag=False):
+        """Sum of all terms (each already multiplied by its measure): array (Q, I, J) [and the magnitude array]."""
         total = None
+        mag = None
         for term in self.form["terms"]:
             e = self._scalar(self.ev(term, 0))
             total = e.v if total is None else total + e.v
+            mag = e.mag.v if mag is None else mag + e.mag.v
+        if with_mag:
+            return total, mag
         return total
 
     def assemble(self):
-        val = self.integrand()
+        val, mag = self.integrand(with_mag=True)
         nv = self._ndof("v")
         nu = self._ndof("u") if self.arity == 2 else 1
         val = np.broadcast_to(val, (self.env.Q, nv, nu))
+        mag = np.broadcast_to(mag, (self.env.Q, nv, nu))
         A = np.einsum("qij->ij", val)
-        sabs = np.einsum("qij->ij", np.abs(val))
+        sabs = np.einsum("qij->ij", mag)
         if self.arity == 1:
             return A[:, 0], sabs[:, 0]
         return A, sabs
